@@ -12,20 +12,20 @@ RULE = ("isvalidaa / isvalidcdr3 on every string up to length 4 over {C,A,F,W,x,
         "non-trivial = a cell that standardisation changes / a key present in only some tables")
 ASSUMPTIONS = ["tidytcells is the oracle for what a cell standardises to (property wording); what is decided is option routing, cell locality and input preservation",
                "multimerge tables have unique keys per table; without suffixes the value columns have distinct names"]
-REQUIRED_CLASSES = {"all": ["empty-string", "non-string-object", "missing-cell", "junk-cell", "option-sensitive-cell", "col_mapper", "shifted-index", "extra-column", "merge-on-column", "merge-suffixes", "merge-partial-keys"]}
+REQUIRED_CLASSES = {"all": ["same-text-in-tr-and-mhc-column", "empty-string", "non-string-object", "missing-cell", "junk-cell", "option-sensitive-cell", "col_mapper", "shifted-index", "extra-column", "merge-on-column", "merge-suffixes", "merge-partial-keys"]}
 MIN_OUTCOMES = 10
 AA = set("ACDEFGHIKLMNPQRSTVWY")
 
 CELLS = {
     "TRAV": ("TRAV1-1*01", "TCRAV1S1", "TRAV11*01", "unknown", None),
-    "CDR3A": ("CAVRDSNYQLIW", "AVRDSNYQLI", "cavr1", None),
-    "TRAJ": ("TRAJ1*01", "aj2", "TRAJ3*01", "junk", None),
+    "CDR3A": ("CAVRDSNYQLIW", "AVRDSNYQLI", "CAVRDSNYQLIC", "cavr1", None),
+    "TRAJ": ("TRAJ1*01", "aj2", "TRAJ3*01", "HLA-A2", "junk", None),
     "TRBV": ("TRBV6-1*01", "bv13*1", "TRBV1*01", None),
-    "CDR3B": ("CASSF", "ass", "x1", None),
-    "TRBJ": ("TRBJ2-4*01", "bj1.5*1", "junk", None),
+    "CDR3B": ("CASSF", "ass", "CC", "x1", None),
+    "TRBJ": ("TRBJ2-4*01", "bj1.5*1", "B2M", "junk", None),
     "Epitope": ("GILGFVFTL", "gilgfvftl", "not-an-epitope", None),
-    "MHCA": ("HLA-A*02:01", "HLA-A2", "junk", None),
-    "MHCB": ("B2M", "DRA", "junk", None),
+    "MHCA": ("HLA-A*02:01", "HLA-A2", "TRAJ3*01", "junk", None),
+    "MHCB": ("B2M", "DRA", "TRBJ2-4*01", "junk", None),
 }
 COLS = tuple(CELLS)
 OPT_DEFAULT = dict(standardize=True, species="HomoSapiens", tcr_precision="gene", mhc_precision="gene", tcr_enforce_functional=True,
@@ -216,6 +216,10 @@ def _check_rows(acc, case):
         acc.fail("standardize_dataframe/shape-index-or-columns", case, {"columns": exp_cols, "index": list(df.index)}, {"columns": list(r.columns), "index": list(r.index)})
         return
     changed = False
+    tr_vals = {x for c in cols if c.startswith("TR") for x in values[c] if x is not None}
+    mh_vals = {x for c in cols if c.startswith("MHC") for x in values[c] if x is not None}
+    if tr_vals & mh_vals:
+        acc.cls("same-text-in-tr-and-mhc-column")
     for c in cols:
         for i in range(n):
             x = values[c][i]
